@@ -141,3 +141,134 @@ Definition thiele_model (g : mol) (sssr : list (list Z)) (rings2 : list (list Z)
             Ok (mkOut true g3 d n_sssr (t_pyr s) (t_freaks s))
       end
   end.
+
+(* ------------------------------------------------------------------------------------------------
+   thiele(fix_tautomers=True): the hydrogen-moving search between the ring loop and the quinone stage.
+   acceptors: neutral N of odd all-sp2 rings; donors: two-bonded pyrrole-type N of six-membered rings (a list, appended
+   per ring).  For every donor a depth-first search over the skeleton looks for an alternating path 2,1,2,..,1 that ends on
+   an acceptor with a single bond; the orders along the path are then swapped, the acceptor becomes the pyrrole-type atom and
+   gets the hydrogen.  The skeleton is a dict of SETS: the order in which a set is iterated is an INPUT of the model (`ords`:
+   what the real run iterated).  double_bonded is computed BEFORE the search and not updated (as in the code).
+   ------------------------------------------------------------------------------------------------ *)
+Record th1t := mkTh1t { tt_base : th1; tt_acc : list Z; tt_don : list Z }.
+
+Definition ring_step_t (g : mol) (s : th1t) (ring : list Z) : th1t :=
+  let b := ring_step g (tt_base s) ring in
+  let lr := Z.of_nat (List.length ring) in
+  if negb ((3 <? lr) && (lr <? 8)) then s
+  else if existsb (fun n => negb (allowed_elt (num_of g n)) || (3 <? nsc_deg g n)) ring then s
+  else
+    let sp2 := countb (fun n => hyb g n =? 2) ring in
+    if sp2 =? lr then
+      if lr =? 4 then mkTh1t b (tt_acc s) (tt_don s)
+      else mkTh1t b (if Z.odd lr then fold_left (fun acc n => if (num_of g n =? 7) && (chg_of g n =? 0) && negb (zmem n acc) then acc ++ [n] else acc) ring (tt_acc s)
+                     else tt_acc s) (tt_don s)
+    else if (4 <? lr) && (lr =? sp2 + 1) then
+      match filter (fun n => hyb g n =? 1) ring with
+      | [] => s
+      | n :: _ =>
+          (* the donor is appended exactly when the N branch is reached with lr = 6 and two bonds (then the ring is accepted) *)
+          let z := num_of g n in
+          let c := chg_of g n in
+          if (c =? 0) && negb (lr =? 7) && negb ((z =? 8) || (z =? 16) || (z =? 34)) && (z =? 7) && (lr =? 6) && (deg_all g n =? 2)
+          then mkTh1t b (tt_acc s) (tt_don s ++ [n]) else mkTh1t b (tt_acc s) (tt_don s)
+      end
+    else mkTh1t b (tt_acc s) (tt_don s).
+
+Definition titem := (Z * Z * Z * Z)%type.                (* (last, current, depth, order) *)
+Definition order_of (g : mol) (n m : Z) : Z := match bond_of g n m with Some b => b_ord b | None => 0 end.
+
+(* while stack: ... ; result: Some path when an acceptor was reached with a single bond *)
+Fixpoint taut_dfs (fuel : nat) (g : mol) (ords : adjl) (dbl acc : list Z) (stack : list titem) (path : list (Z * Z * Z)) (seen : list Z)
+  : option (list (Z * Z * Z) * Z) :=
+  match fuel with
+  | O => None
+  | S f =>
+      match pop_last stack with
+      | None => None
+      | Some ((last, current, depth, order), stack') =>
+          let d := Z.to_nat depth in
+          let '(path1, seen1) :=
+            if (d <? List.length path)%nat
+            then (firstn d path, filter (fun x => negb (zmem x (map (fun e => snd (fst e)) (skipn d path)))) seen)
+            else (path, seen) in
+          let path2 := path1 ++ [(last, current, order)] in
+          if zmem current acc then
+            (if order =? 1 then Some (path2, current) else taut_dfs f g ords dbl acc stack' path2 seen1)
+          else
+            let seen2 := seen1 ++ [current] in
+            let new_order := if order =? 2 then 1 else 2 in
+            let nxt := filter (fun n => negb (zmem n seen2) && negb (zmem n dbl) && (order_of g current n =? order)) (al_get ords current) in
+            taut_dfs f g ords dbl acc (stack' ++ map (fun n => (current, n, depth + 1, new_order)) nxt) path2 seen2
+      end
+  end.
+
+Definition set_h_atom (g : mol) (n h : Z) : mol :=
+  mkMol (map (fun na => if fst na =? n
+                        then (fst na, mkAtom (a_num (snd na)) (a_iso (snd na)) (a_chg (snd na)) (a_rad (snd na)) (Some h) (a_stereo (snd na)))
+                        else na) (m_atoms g)) (m_adj g).
+
+(* for start in donors: ... *)
+Fixpoint taut_donors (fuel : nat) (ords : adjl) (dbl : list Z) (donors : list Z) (g : mol) (acc pyr : list Z) : mol * list Z * list Z :=
+  match donors with
+  | [] => (g, acc, pyr)
+  | start :: rest =>
+      let stack := map (fun n => ((start, n, 0, 2) : titem)) (filter (fun n => negb (zmem n dbl)) (al_get ords start)) in
+      match taut_dfs fuel g ords dbl acc stack [] [start] with
+      | None => taut_donors fuel ords dbl rest g acc pyr
+      | Some (path, current) =>
+          let acc' := filter (fun x => negb (x =? current)) acc in
+          let pyr' := filter (fun x => negb (x =? start)) pyr in
+          let pyr'' := if zmem current pyr' then pyr' else pyr' ++ [current] in
+          let g1 := set_h_atom (set_h_atom g current 1) start 0 in
+          let g2 := fold_left (fun g e => let '(n, m, o) := e in set_order g n m o) path g1 in
+          match acc' with
+          | [] => (g2, acc', pyr'')
+          | _ => taut_donors fuel ords dbl rest g2 acc' pyr''
+          end
+      end
+  end.
+
+(* the whole of thiele(fix_tautomers=True) *)
+Definition thiele_model_t (g : mol) (sssr : list (list Z)) (ords : adjl) (rings2 : list (list Z)) (freak_ok : list bool) : pyres th_out :=
+  let st := fold_left (ring_step_t g) sssr (mkTh1t (mkTh1 [] [] [] []) [] []) in
+  let s := tt_base st in
+  match t_rings s with
+  | [] => Ok (mkOut false g [] 0 (t_pyr s) (t_freaks s))
+  | rings0 =>
+      let dbl := filter (fun n => existsb (fun mb => ord_is 2 mb && negb (zmem (fst mb) (al_get rings0 n))) (nbrs g n)) (keys rings0) in
+      let '(gt, _, pyr) :=
+        match tt_acc st, tt_don st with
+        | _ :: _, _ :: _ => taut_donors (List.length (m_atoms g) * List.length (m_atoms g) + 10)%nat ords dbl (tt_don st) g (tt_acc st) (t_pyr s)
+        | _, _ => (g, tt_acc st, t_pyr s)
+        end in
+      let no := fun (d : adjl) (k : Z) => (Ok (mkOut false gt d k pyr (t_freaks s)) : pyres th_out) in
+      let stage2 :=
+        match dbl with
+        | [] => Ok (Some rings0)
+        | _ => let d1 := fold_left drop_atom dbl rings0 in
+               let d2 := filter (fun nl => nonempty (snd nl)) d1 in
+               match d2 with
+               | [] => Ok None
+               | _ => match prune (S (List.length d2)) pyr d2 with
+                      | Err e => Err e
+                      | Ok [] => Ok None
+                      | Ok d3 => Ok (Some d3)
+                      end
+               end
+        end in
+      match stage2 with
+      | Err e => Err e
+      | Ok None => no [] 0
+      | Ok (Some d) =>
+          let n_sssr := Z.of_nat (fold_right (fun nl a => (List.length (snd nl) + a)%nat) O d) / 2 - Z.of_nat (List.length d)
+                        + components (List.length d) d (keys d) [] 0 in
+          if n_sssr =? 0 then no d 0
+          else
+            let seen := concat rings2 in
+            let g1 := fold_left (fun g r => if forallb (fun n => zmem n seen) r then set_bonds g r 1 else g) (t_tetra s) gt in
+            let g2 := fold_left (fun g r => set_bonds g r 4) rings2 g1 in
+            let g3 := fold_left (fun (g : mol) (rb : list Z * bool) => if snd rb then set_bonds g (fst rb) 4 else g) (combine (t_freaks s) freak_ok) g2 in
+            Ok (mkOut true g3 d n_sssr pyr (t_freaks s))
+      end
+  end.
